@@ -14,30 +14,21 @@ Theorem C18_vtt_total_refuted_overflow :
 Proof. repeat split; vm_compute; reflexivity. Qed.
 
 (* ---- the cursors ---------------------------------------------------------------------------------------------- *)
-(* finding srt-stray-end-tag: "a</b>c" in an attached paragraph, "</b>c" in one that is not attached *)
-Theorem C18_srt_cursor_refuted_stray_end :
-  srt_cursor_run true [EvData; EvEnd; EvData] = Internal TypeErr
-  /\ srt_cursor_run false [EvEnd; EvData] = Internal AttributeErr
-  /\ srt_cursor_run true [EvEnd; EvEnd; EvEnd; EvEnd] = Internal AttributeErr
-  /\ srt_stray_end [EvData; EvEnd; EvData] = true.
-Proof. repeat split; reflexivity. Qed.
-
 (* finding srt-font-color-without-value: "<font color>x" *)
 Theorem C18_srt_cursor_refuted_font :
-  srt_cursor_run true [EvStart (Some ColorNoValue); EvData] = Internal TypeErr
-  /\ srt_font_novalue [EvStart (Some ColorNoValue); EvData] = true.
+  srt_cursor_run true [EvStart 0 (Some ColorNoValue); EvData] = Internal TypeErr
+  /\ srt_font_novalue [EvStart 0 (Some ColorNoValue); EvData] = true.
 Proof. split; reflexivity. Qed.
 
-(* findings vtt-stray-end-tag, vtt-rt-outside-ruby, vtt-ruby-structure *)
+(* findings vtt-stray-end-tag, vtt-ruby-structure *)
 Theorem C18_vtt_cursor_refuted :
   vtt_cursor_run true [TData 0; TEnd; TData 0] = Internal TypeErr                      (* a</b>c *)
-  /\ vtt_cursor_run true [TStartRt] = Internal AttributeErr                            (* <rt> *)
   /\ vtt_cursor_run true [TStartSpan; TStartRuby] = Internal TypeErr                   (* <b><ruby> *)
   /\ vtt_cursor_run true [TStartRuby; TStartSpan] = Internal RuntimeErr                (* <ruby><b> *)
   /\ vtt_cursor_run true [TStartRuby; TData 0; TStartRuby] = Internal RuntimeErr       (* nested ruby *)
   /\ vtt_cursor_run true [TStartRuby; TData 0; TStartRt; TData 1] = Internal TypeErr   (* line break inside <rt> *)
   /\ vtt_stray_end [TData 0; TEnd; TData 0] = true
-  /\ vtt_has_ruby [TStartRt] = true.
+  /\ vtt_has_ruby [TStartSpan; TStartRuby] = true.
 Proof. repeat split; reflexivity. Qed.
 
 (* ---- SCC: the word-level function alone can fail internally ------------------------------------------------------ *)
@@ -64,28 +55,25 @@ Theorem C18_stl_refuted_zero_rows :
   stl_run cfg [] file = Internal ZeroDivisionErr /\ trig_zero_rows cfg (firstn 1024 file) = true.
 Proof. split; vm_compute; reflexivity. Qed.
 
-(* finding stl-zero-block-count: TNB = "00000" *)
-Theorem C18_stl_refuted_zero_count :
-  let file := patch 238 [48;48;48;48;48] gsi_blank ++ tti 0 5 in
-  stl_run cfg0 [] file = Internal ZeroDivisionErr /\ trig_zero_count (firstn 1024 file) = true.
-Proof. split; vm_compute; reflexivity. Qed.
-
-(* finding stl-cumulative-block-first: the first subtitle block has CS = 2 *)
-Theorem C18_stl_refuted_cumulative_first :
-  stl_run cfg0 [] (gsi_blank ++ tti 2 5) = Internal AttributeErr /\ trig_cum_first cfg0 (gsi_blank ++ tti 2 5) = true
-  /\ stl_run cfg0 [] (gsi_blank ++ tti 1 5 ++ tti 2 6) = OkDoc.
-Proof. repeat split; vm_compute; reflexivity. Qed.
-
 (* ---- SRT: the variant without `subtitle_text = ""` (the code before repository commit 76afcc4) -------------------- *)
 Theorem C18_srt_unbound_variant_refuted :
   srt_run_unbound [] [49;10;48;48;58;48;48;58;48;49;44;48;48;48;32;45;45;62;32;48;48;58;48;48;58;48;50;44;48;48;48;10;10]
   = Internal UnboundLocalErr.
 Proof. vm_compute. reflexivity. Qed.
 
-(* ---- repaired in the repository (commits 7ed55ac, 05a353c, 9e84fe8, 41b1329): the former witnesses now pass ---------- *)
+(* ---- repaired in the repository (commits 7ed55ac, 05a353c, 9e84fe8, 41b1329; 818e997, 15db449, c08d0ef, 8f4f9e5): the
+   former witnesses now pass ------------------------------------------------------------------------------------------ *)
 Theorem C18_repaired_witnesses_pass :
   vtt_run [] [] = OkDoc                                                                                   (* empty file *)
   /\ vtt_run [] [87;69;66;86;84;84;10;10;48;48;58;48;49;46;48;48;48;32;45;45;62;32;48;48;58;48;50;46;48;48;48;10] = OkDoc   (* cue without payload *)
   /\ stl_run {| cfg_start := StartTCP; cfg_rows := RowsNone |} [] (gsi_blank ++ tti 0 5) = OkDoc          (* blank TCP *)
-  /\ stl_run {| cfg_start := StartNone; cfg_rows := RowsMNR |} [] (gsi_blank ++ tti 0 30) = OkDoc.        (* blank MNR, subtitle at 30 s *)
+  /\ stl_run {| cfg_start := StartNone; cfg_rows := RowsMNR |} [] (gsi_blank ++ tti 0 30) = OkDoc         (* blank MNR, subtitle at 30 s *)
+  /\ srt_cursor_run true [EvData; EvEnd 0; EvData] = OkDoc                                                (* a</b>c *)
+  /\ srt_cursor_run false [EvEnd 0; EvData] = OkDoc                                                       (* </b>c, paragraph not attached *)
+  /\ srt_cursor_run true [EvStart 0 None; EvStart 1 None; EvEnd 0; EvData; EvEnd 1; EvEnd 0; EvEnd 0] = OkDoc   (* <b><i></b>x</i></b></b> *)
+  /\ vtt_cursor_run true [TStartRt; TData 0] = OkDoc                                                      (* <rt>x *)
+  /\ vtt_cursor_run true [TTimestamp; TData 0; TEnd; TData 0] = Internal TypeErr                          (* a timestamp tag opens nothing: the end tag is stray *)
+  /\ stl_run cfg0 [] (patch 238 [48;48;48;48;48] gsi_blank ++ tti 0 5) = OkDoc                            (* TNB = "00000" *)
+  /\ stl_run cfg0 [] (gsi_blank ++ tti 2 5) = OkDoc                                                       (* first subtitle block has CS = 2 *)
+  /\ stl_run cfg0 [] (gsi_blank ++ tti 1 5 ++ tti 2 6) = OkDoc.
 Proof. repeat split; vm_compute; reflexivity. Qed.
